@@ -9,7 +9,12 @@ Bounded-exhaustive enumeration of program constructions against boring reference
 (ii)  as_code: per simulator class a catalogue of valid programs (scalar lattice, matrix catalogue,
       measurements with a seeded Config) and every non-default Config field combination of size <= 2
       -> pq.as_code -> exec in a fresh namespace: same types, modes, params (bit-exact), same d, same
-      simulator class, Config equality, and the generated code runs and reproduces the original result.
+      simulator class, the configuration FIELD BY FIELD over the parameters of Config.__init__ (inspect.signature; not through
+      Config.__eq__, which is itself under test) and then Config equality, and the generated code runs and reproduces the original
+      result.  Every single non-default field alone, every pair, for every simulator class, in both tiers.
+(ii') Config.__eq__ / Config.copy(): for every field f of the constructor signature and every non-default value v of the lattice
+      Config() != Config(f=v), Config(f=v) == Config(f=v), Config(f=v) != Config(f=v'), every pair of fields distinguishes the
+      configs it should, copy() equals the original field by field and by ==.
 (iii) Program.from_dict of the documented dictionary format and Program.copy()/Instruction.copy().
 (iv)  nesting: inner programs on <= 2 modes through every injective register into <= 4 outer modes,
       nesting depth <= 3, the inner program registered twice: modes = register o inner exactly once,
@@ -486,10 +491,69 @@ CONFIG_FIELDS = {
     "use_dask": True,
     "max_sample_generation_trials": 10,
 }
+# second non-default values (the oracle on Config.__eq__ also compares two different non-default values of one field)
+CONFIG_FIELDS_2 = {"cutoff": 7, "measurement_cutoff": 6, "hbar": {"np64": 0.5}, "seed_sequence": 123, "cache_size": 0, "max_sample_generation_trials": 999}
 CONFIG_ALT = [
     {"cutoff": 4}, {"hbar": {"np64": 0.5}}, {"hbar": 3}, {"seed_sequence": 0}, {"dtype": "float64"},
     {"hbar": 0.30000000000000004}, {"hbar": 2.0000000000000004, "cutoff": 6}, {"cache_size": 0}, {"seed_sequence": 123456789012345678901234567890}, {"hbar": 1e-3}, {"measurement_cutoff": 1},
 ]
+
+
+def config_signature():
+    """{field: default} of the keyword parameters of Config.__init__ (the authority on what a configuration consists of)"""
+    import inspect
+    import piquasso as pq
+
+    sig = inspect.signature(pq.Config.__init__)
+    return {n: p.default for n, p in sig.parameters.items() if n != "self" and p.kind in (p.KEYWORD_ONLY, p.POSITIONAL_OR_KEYWORD)}
+
+
+def config_nondefaults():
+    """{field: [non-default value descriptors]} for EVERY field of the constructor signature: the harness lattice where it names the field, a
+    value derived from the type of the default for a field the lattice does not know (so that a field added to Config is enumerated, too)"""
+    from mc import core
+
+    out = {}
+    for f, default in config_signature().items():
+        if f in CONFIG_FIELDS:
+            out[f] = [CONFIG_FIELDS[f]] + ([CONFIG_FIELDS_2[f]] if f in CONFIG_FIELDS_2 else [])
+        elif isinstance(default, bool):
+            out[f] = [not default]
+        elif isinstance(default, int):
+            out[f] = [default + 3, default + 5]
+        elif isinstance(default, float):
+            out[f] = [default / 2, default * 1.5]
+        else:
+            raise core.HarnessError("C18: Config.__init__ has a parameter %r (default %r) for which the harness has no non-default value" % (f, default))
+    missing = [f for f in CONFIG_FIELDS if f not in out]
+    if missing:
+        raise core.HarnessError("C18: the harness lattice names Config fields %r that Config.__init__ does not accept" % (missing,))
+    return out
+
+
+def _value_same(a, b):
+    if a is b:
+        return True
+    if _isnum(a) and _isnum(b):
+        return num_equal(a, b)
+    try:
+        return type(a) is type(b) and bool(a == b)
+    except Exception:
+        return False
+
+
+def config_field_diff(A, B, kwargs=None, copied=False):
+    """first field of the constructor signature whose public attribute differs between the configs A and B -> (field, a, b) or None.
+    seed_sequence: an unspecified (None / 0) seed is replaced by fresh entropy in every Config object, so the public attribute is only compared when
+    a seed was specified (or for copy(), which must keep it); otherwise the recorded constructor argument is compared."""
+    for f in config_signature():
+        if f == "seed_sequence" and not copied and not (kwargs or {}).get(f):
+            a, b = getattr(A, "_original_seed_sequence", None), getattr(B, "_original_seed_sequence", None)
+        else:
+            a, b = getattr(A, f), getattr(B, f)
+        if not _value_same(a, b):
+            return (f, a, b)
+    return None
 
 
 def make_config(kwargs, seed):
@@ -648,13 +712,15 @@ def config_catalogue(tier):
         ],
     }
     base["SamplingSimulator"] = base["PassiveSimulator"]
-    fields = list(CONFIG_FIELDS)
+    nd = config_nondefaults()  # every field of inspect.signature(Config.__init__), in both tiers
+    fields = list(nd)
     combos = [{}]
     for f in fields:
-        combos.append({f: CONFIG_FIELDS[f]})
+        for v in nd[f]:
+            combos.append({f: v})
     for f, g in itertools.combinations(fields, 2):
-        combos.append({f: CONFIG_FIELDS[f], g: CONFIG_FIELDS[g]})
-    combos += CONFIG_ALT
+        combos.append({f: nd[f][0], g: nd[g][0]})
+    combos += [c for c in CONFIG_ALT if c not in combos]
     out = []
     for sim in SIMS:
         for cfg in combos:
@@ -732,8 +798,12 @@ def code_case(ctx, spec, seed, report=True):
         return viol("simulator_class", "%s regenerated as %s" % (type(S).__name__, type(S2).__name__), sim=spec["sim"])
     if S2.d != S.d:
         return viol("simulator_d", "d %r regenerated as %r" % (S.d, S2.d), sim=spec["sim"])
-    if not (S2.config == S.config):
-        return viol("config", "Config(%s) regenerated as %r" % (spec["config"], S2.config), fields=",".join(sorted((spec["config"] or {}).keys())))
+    fd = config_field_diff(S.config, S2.config, spec["config"])
+    if fd is not None:
+        return viol("config_field_lost", "Config(%s): the regenerated simulator has config.%s = %r instead of %r (simulator code: %s)" % (
+            spec["config"], fd[0], fd[2], fd[1], " ".join(head[head.index("simulator ="):].split())[:200]), field=fd[0])
+    if not (S2.config == S.config) or (S2.config != S.config):
+        return viol("config", "Config(%s) regenerated as %r, equal field by field but not by ==" % (spec["config"], S2.config), fields=",".join(sorted((spec["config"] or {}).keys())))
     # the generated code runs and reproduces the original result
     S_run = make_sim(spec, seed)
     P_run = make_program(spec["instr"], seed)
@@ -783,6 +853,97 @@ def _w_code(ctx, item):
 
 
 _w_cfg = _w_code
+
+
+# --- (ii') Config.__eq__ / Config.copy() --------------------------------------------------------------------
+
+
+def config_eq_cases():
+    nd = config_nondefaults()
+    out = []
+    for f, vals in nd.items():
+        for v in vals:
+            out.append({"op": "single", "field": f, "value": v})
+        if len(vals) >= 2:
+            out.append({"op": "two_values", "field": f, "value": vals[0], "value2": vals[1]})
+    for f, g in itertools.permutations(nd, 2):
+        out.append({"op": "pair", "field": g, "value": nd[g][0], "other": f, "other_value": nd[f][0]})
+    out.append({"op": "default", "field": "-"})
+    return out
+
+
+def config_eq_case(ctx, case, seed, report=True):
+    """direct oracle on Config.__eq__ / __ne__ / copy(); `field` is the field in which the two compared configs differ"""
+    import piquasso as pq
+
+    f = case["field"]
+
+    def viol(defect, msg):
+        if report:
+            ctx.violation({"check": "C18", "sub": "config_eq", "defect": defect, "field": f}, {"kind": "cfgeq", "case": case}, msg)
+        return defect
+
+    def differ(A, B, what):
+        if (A == B) or (B == A) or not (A != B) or not (B != A):
+            return viol("unequal_configs_compare_equal", "%s differ in the field %s (%r vs %r) but compare equal (==: %s/%s, !=: %s/%s)" % (
+                what, f, getattr(A, f), getattr(B, f), A == B, B == A, A != B, B != A))
+        return None
+
+    def same(A, B, what):
+        if not (A == B) or not (B == A) or (A != B):
+            return viol("equal_configs_compare_unequal", "%s compare unequal" % what)
+        return None
+
+    def copy_ok(A, what):
+        C = A.copy()
+        fd = config_field_diff(A, C, copied=True)
+        if C is A or type(C) is not type(A):
+            return viol("copy_differs", "%s.copy() returns %s" % (what, "the same object" if C is A else type(C).__name__))
+        if fd is not None:
+            nonlocal f
+            f = fd[0]
+            return viol("copy_differs", "%s.copy() has %s = %r instead of %r" % (what, fd[0], fd[2], fd[1]))
+        return same(A, C, "%s and its copy()" % what)
+
+    op = case["op"]
+    if op == "default":
+        D = pq.Config()
+        return same(D, D, "Config() and itself") or copy_ok(D, "Config()") or (viol("equal_configs_compare_unequal", "Config() == 0 is not False") if (D == 0) is not False else None)
+    kw = {f: case["value"]}
+    A, B = make_config(kw, seed), make_config(kw, seed)
+    text = "Config(%s=%r)" % (f, getattr(A, f))
+    if not _value_same(getattr(A, f), getattr(B, f)) or _value_same(getattr(A, f), getattr(pq.Config(seed_sequence=1), f)):
+        from mc import core
+
+        raise core.HarnessError("C18 config_eq: the lattice value %r of Config.%s is not a non-default value" % (case["value"], f))
+    if op == "single":
+        return differ(pq.Config(), A, "Config() and %s" % text) or same(A, B, "%s and %s" % (text, text)) or same(A, A, "%s and itself" % text) or copy_ok(A, text)
+    if op == "two_values":
+        A2 = make_config({f: case["value2"]}, seed)
+        return differ(A, A2, "%s and Config(%s=%r)" % (text, f, getattr(A2, f)))
+    if op == "pair":
+        g = case["other"]
+        O = make_config({g: case["other_value"]}, seed)
+        AO, AO2 = make_config({g: case["other_value"], f: case["value"]}, seed), make_config({f: case["value"], g: case["other_value"]}, seed)
+        return (differ(O, AO, "Config(%s=..) and Config(%s=.., %s=..)" % (g, g, f)) or same(AO, AO2, "Config(%s=.., %s=..) and Config(%s=.., %s=..)" % (g, f, f, g))
+                or copy_ok(AO, "Config(%s=.., %s=..)" % (g, f)))
+    raise ValueError(op)
+
+
+def _w_cfgeq(ctx, item):
+    from mc import core
+
+    cnt = 0
+    for case in config_eq_cases():
+        cnt += 1
+        r = config_eq_case(ctx, case, ctx.seed, report=False)
+        if r is not None and config_eq_case(ctx, case, ctx.seed, report=True) != r:
+            raise core.HarnessError("HARNESS-NONDETERMINISM C18 config_eq %r" % (case,))
+        ctx.note_distinct(("cfgeq", case["op"], case["field"], repr(case.get("value")), case.get("other")))
+    ctx.count("evaluations", cnt)
+    ctx.count("config_eq_cases", cnt)
+    ctx.count("config_fields_in_signature", len(config_signature()))
+    ctx.sample({"kind": "cfgeq", "fields": list(config_signature()), "cases": cnt})
 
 
 def dict_case(ctx, spec, seed, report=True):
@@ -1430,6 +1591,7 @@ def _items(tier):
         items.append(("code", c, 24))
     for c in range(16):
         items.append(("cfg", c, 16))
+    items.append(("cfgeq", 0, 1))
     for c in range(8):
         items.append(("dict", c, 8))
     for c in range(8):
@@ -1457,7 +1619,7 @@ def work(ctx, item):
     import warnings
 
     warnings.simplefilter("ignore")
-    fn = {"bb1": _w_bb, "bb2": _w_bb, "bb3": _w_bb, "code": _w_code, "cfg": _w_code, "dict": _w_dict, "nest": _w_nest, "nestrun": _w_nestrun, "alg": _w_alg}[item[0]]
+    fn = {"bb1": _w_bb, "bb2": _w_bb, "bb3": _w_bb, "code": _w_code, "cfg": _w_code, "cfgeq": _w_cfgeq, "dict": _w_dict, "nest": _w_nest, "nestrun": _w_nestrun, "alg": _w_alg}[item[0]]
     fn(ctx, item)
 
 
@@ -1472,13 +1634,16 @@ def run(ctx, builddir):
     ctx.rule = (
         "(i) every 1-instruction Blackbird program over 15 classes x ordered mode tuples (d=3) x lattice combinations, every "
         "depth-2 (thorough: depth-3 on d=2) program over one template per (class, mode tuple); (ii) a catalogue of valid programs per "
-        "simulator class (scalar lattice, matrix catalogue, seeded measurements) and every Config field combination of size <= 2 x "
-        "simulator class; (iii) from_dict / copy of all of these; (iv) every inner program x every injective register (and register "
+        "simulator class (scalar lattice, matrix catalogue, seeded measurements) and every Config field (taken from inspect.signature(Config.__init__)) "
+        "alone and every pair x simulator class x 2 programs, compared field by field; (ii') Config.__eq__/__ne__/copy() on every field, two values per "
+        "field, every ordered pair of fields; (iii) from_dict / copy of all of these; (iv) every inner program x every injective register (and register "
         "chains to depth 3, inner registered twice); (v) every expression tree of the stated family with <= 4 (5) leaves; a case is "
         "distinct per concrete program / register chain / tree"
     )
     ctx.assume("Blackbird text round trip: parameter values compared within 1 ulp; as_code / from_dict / copy: bit-exact values (sign of zero included), numeric type (int vs float vs numpy scalar) not demanded")
     ctx.assume("as_code: programs with a measurement and no seed_sequence are only required to run (sampling is not reproducible without a seed); float32 configs compared at 1e-5, everything else at 1e-12")
+    ctx.assume("Config round trips are compared through the public attribute of every parameter of Config.__init__ (bit-exact for numbers), then through ==; an unspecified "
+               "seed_sequence (None or 0 -> fresh entropy per object) is compared through the recorded constructor argument")
     ctx.assume("from_dict: the documented dictionary format is built by the harness (the library has no exporter); 'modes' may come back as a list")
     ctx.assume("preparation algebra: amplitudes compared at 1e-9 relative (x / c is implemented as x * (1 / c)); StateVector has no '+': counted as unsupported cells; trees with k >= 3 leaves carry at most 2 (k=3) / 1 (k>=4) scalar decorations")
     core.pmap(ctx, "mc.checks.c18", "work", items, builddir)
@@ -1488,6 +1653,8 @@ def run(ctx, builddir):
         "blackbird_programs": c.get("blackbird_programs", 0),
         "as_code_programs": c.get("as_code_programs", 0),
         "as_code_config_cases": c.get("as_code_config_cases", 0),
+        "config_eq_cases": c.get("config_eq_cases", 0),
+        "config_fields_in_signature": c.get("config_fields_in_signature", 0),
         "from_dict_copy_programs": c.get("from_dict_copy_programs", 0),
         "nesting_cases": sum(v for k, v in c.items() if k.startswith("nesting_cases")),
         "algebra_trees": sum(v for k, v in c.items() if k.startswith("algebra_trees")),
@@ -1503,6 +1670,8 @@ def replay(ctx, case, signature):
         bb_case(ctx, case["templates"], ctx.seed)
     elif kind == "code":
         code_case(ctx, case["spec"], ctx.seed)
+    elif kind == "cfgeq":
+        config_eq_case(ctx, case["case"], ctx.seed)
     elif kind == "dict":
         dict_case(ctx, case["spec"], ctx.seed)
     elif kind == "nest":
